@@ -1347,7 +1347,6 @@ func (e *crashEnv) killJob(k int, wl crashWorkload, mech string, rng *rand.Rand,
 		if emulate == "wal-delete-window" {
 			// z.MmapFile.Delete = munmap, ftruncate(fd, 0), close, unlink: the process dies after the ftruncate
 			os.Truncate(filepath.Join(s.Dir, "00001.mem"), 0)
-			extra = append(extra, "PE (Truncate0 (Wal 1))")
 		} else {
 			// z.OpenMmapFile = openat(O_CREAT) then ftruncate(size): the process dies in between
 			next := maxWal + 1
@@ -1359,14 +1358,22 @@ func (e *crashEnv) killJob(k int, wl crashWorkload, mech string, rng *rand.Rand,
 				}
 			}
 			os.WriteFile(filepath.Join(s.Dir, fmt.Sprintf("%05d.mem", next)), nil, 0o666)
-			extra = append(extra, fmt.Sprintf("PE (Create (Wal %d))", next))
 		}
 	}
 	var pre *crashTrace
 	if wl.model && mech != "sigkill" {
 		pre = crashBuildTrace(&s, evs, 0)
-		if pre.ok && mech != "emulate" {
-			extra = append(extra, pre.reconcile(s.Dir)...)
+		opened := false
+		for _, ev := range evs {
+			if ev.Kind == "OPEN-DONE" {
+				opened = true
+			}
+		}
+		if !opened {
+			pre.ok, pre.why = false, "killed during the initial Open (the model starts from the opened empty database)"
+		}
+		if pre.ok {
+			extra = pre.reconcile(s.Dir)
 		}
 	}
 	r.po, r.perr = e2.probe(&s)
